@@ -114,7 +114,7 @@ Proof.
 Qed.
 
 (** ** string table *)
-Lemma init_strtab_good alim f sects idx : good (init_strtab alim f sects idx).
+Lemma init_strtab_good alim f sects idx : good (init_strtab alim f (N.of_nat (length sects)) sects idx).
 Proof.
   unfold init_strtab.
   destruct ((idx =? 0) || (N.of_nat (length sects) <=? idx)) eqn:E; [auto|].
@@ -168,7 +168,18 @@ Proof.
     [apply negb_false_iff, N.eqb_eq in E; subst; apply read_shdrs_zero
     |apply N.ltb_ge in E; apply read_shdrs_good; exact E]
   end.
-  all: intros sects _.
+  all: intros sects Hs.
+  all: assert (Hlen : N.of_nat (length sects) = shnum) by
+    (match type of Hs with
+     | (if negb (?n =? 0) && (?v <? ?sz) then _ else read_shdrs ?a ?b ?c ?d ?e ?g ?h) = Ok _ =>
+       let E := fresh "E" in
+       destruct (negb (n =? 0) && (v <? sz)) eqn:E; [discriminate|];
+       apply andb_false_iff in E; destruct E as [E|E];
+       [apply negb_false_iff, N.eqb_eq in E; subst; unfold read_shdrs in Hs; cbn in Hs;
+        injection Hs as <-; reflexivity
+       |apply N.ltb_ge in E; exact (proj2 (read_shdrs_good a b c d e g h E) sects Hs)]
+     end).
+  all: rewrite <- Hlen.
   all: apply good_bind; [apply init_strtab_good|intros; auto].
 Qed.
 
